@@ -382,3 +382,48 @@ def mutable_defaults(fn):
                 isinstance(d, ast.Call) and isinstance(d.func, ast.Name) and d.func.id in ('list', 'dict', 'set', 'deque', 'defaultdict', 'bytearray', 'Counter')):
             out.append((d, f'parameter `{p.arg}` defaults to one mutable object shared between calls: {ast.unparse(d)}'))
     return out
+
+
+_MUT = {'append', 'extend', 'pop', 'clear', 'remove', 'rotate', 'popleft', 'appendleft', 'add', 'insert', 'sort', 'reverse', 'update',
+        'discard', 'extendleft', 'setdefault', 'popitem', '__setitem__', '__delitem__'}
+
+
+def _root_self(e):
+    while isinstance(e, (ast.Subscript, ast.Attribute)):
+        if isinstance(e, ast.Attribute) and isinstance(e.value, ast.Name) and e.value.id in ('self', 'cls'):
+            return e.attr
+        e = e.value
+    return None
+
+
+def written_attrs(fn) -> set:
+    """attributes of self / cls the function writes: assignment, augmented assignment, deletion, or a mutating method call on them
+    (through any subscripts): ``self.x = ..``, ``self.x[i] += ..``, ``self.x[i].append(..)``, ``del self.x[i]``"""
+    out = set()
+    for n in ast.walk(fn):
+        tg = []
+        if isinstance(n, ast.Assign):
+            tg = list(n.targets)
+        elif isinstance(n, (ast.AugAssign, ast.AnnAssign)):
+            tg = [n.target]
+        elif isinstance(n, ast.Delete):
+            tg = list(n.targets)
+        elif isinstance(n, (ast.For, ast.comprehension)):
+            tg = [n.target]
+        elif isinstance(n, ast.NamedExpr):
+            tg = [n.target]
+        elif isinstance(n, ast.Call) and isinstance(n.func, ast.Attribute) and n.func.attr in _MUT:
+            r = _root_self(n.func.value)
+            if r:
+                out.add(r)
+        elif isinstance(n, ast.Call) and isinstance(n.func, ast.Name) and n.func.id in ('setattr', 'delattr') and n.args \
+                and isinstance(n.args[0], ast.Name) and n.args[0].id in ('self', 'cls'):
+            out.add(ast.unparse(n.args[1]) if len(n.args) > 1 else '?')
+        flat = []
+        for t in tg:
+            flat.extend(t.elts if isinstance(t, (ast.Tuple, ast.List)) else [t])
+        for t in flat:
+            r = _root_self(t.value if isinstance(t, ast.Starred) else t)
+            if r:
+                out.add(r)
+    return out
